@@ -497,3 +497,140 @@ func linesOp(sep *string, content string) string {
 	}
 	return "lines " + st + " c" + hex.EncodeToString([]byte(content))
 }
+
+// ---------------------------------------------------------------------------------------------------------
+// positional late rows: 100 previewed rows fix the column type, then ONE row beyond the preview carries a nested
+// value in which exactly one element / field is replaced — at the first, a middle and the last position — by a
+// value of another kind (the row cannot be represented: an error is expected), or is left conforming (the row must be
+// read back unchanged).  Catches conversions that let one position decide for the whole list / object / union.
+
+func jArrOf(vs ...*jv) *jv { return &jv{k: jArr, vals: vs} }
+func jObjOf(kv ...interface{}) *jv {
+	o := &jv{k: jObj}
+	for i := 0; i+1 < len(kv); i += 2 {
+		o.keys = append(o.keys, kv[i].(string))
+		o.vals = append(o.vals, kv[i+1].(*jv))
+	}
+	return o
+}
+
+func jClone(v *jv) *jv {
+	c := *v
+	c.keys = append([]string(nil), v.keys...)
+	c.vals = make([]*jv, len(v.vals))
+	for i, x := range v.vals {
+		c.vals[i] = jClone(x)
+	}
+	return &c
+}
+
+// jReplace returns a copy of v with the node at path (indices into vals) replaced by repl
+func jReplace(v *jv, path []int, repl *jv) *jv {
+	if len(path) == 0 {
+		return jClone(repl)
+	}
+	c := jClone(v)
+	c.vals[path[0]] = jReplace(v.vals[path[0]], path[1:], repl)
+	return c
+}
+
+type posShape struct {
+	preview []*jv   // values of column "c" in the previewed rows (cycled)
+	late    *jv     // a conforming late value
+	paths   [][]int // positions inside `late` at which an element / field is replaced
+	bad     []*jv   // replacements that do not fit the element / field type there
+	good    []*jv   // replacements that do fit
+}
+
+func positionalShapes() []posShape {
+	n := jNumOf
+	s := jString
+	null := &jv{k: jNull}
+	obj := func(p, q *jv) *jv { return jObjOf("p", p, "q", q) }
+	return []posShape{
+		{ // [Float]
+			preview: []*jv{jArrOf(n("1"), n("2.5"), n("3")), jArrOf(n("7"))},
+			late:    jArrOf(n("1"), n("2"), n("3"), n("4"), n("5")),
+			paths:   [][]int{{0}, {2}, {4}},
+			bad:     []*jv{s("x"), null, jArrOf(n("1")), jObjOf("k", n("1")), {k: jTrue}},
+			good:    []*jv{n("9.5")},
+		},
+		{ // [String | Null]
+			preview: []*jv{jArrOf(s("a"), null), jArrOf(s("b"))},
+			late:    jArrOf(s("u"), s("v"), s("w"), s("x")),
+			paths:   [][]int{{0}, {1}, {3}},
+			bad:     []*jv{n("1"), jArrOf(s("y")), {k: jFalse}},
+			good:    []*jv{null, s("")},
+		},
+		{ // [[Float]]
+			preview: []*jv{jArrOf(jArrOf(n("1")), jArrOf(n("2"), n("3"))), jArrOf(jArrOf(n("4")))},
+			late:    jArrOf(jArrOf(n("1"), n("2"), n("3")), jArrOf(n("4"), n("5"), n("6")), jArrOf(n("7"), n("8"), n("9"))),
+			paths:   [][]int{{0}, {1}, {2}, {0, 0}, {0, 2}, {1, 1}, {2, 0}, {2, 2}},
+			bad:     []*jv{s("x"), null, jObjOf("k", n("1"))},
+			good:    nil,
+		},
+		{ // [{p: Float, q: String}]
+			preview: []*jv{jArrOf(obj(n("1"), s("a")), obj(n("2"), s("b"))), jArrOf(obj(n("3"), s("c")))},
+			late:    jArrOf(obj(n("1"), s("a")), obj(n("2"), s("b")), obj(n("3"), s("c"))),
+			paths:   [][]int{{0}, {1}, {2}, {0, 0}, {0, 1}, {1, 0}, {1, 1}, {2, 0}, {2, 1}},
+			bad:     []*jv{{k: jTrue}, null, jArrOf(n("1"))},
+			good:    nil,
+		},
+		{ // {a: Float, b: String, c: Bool, l: [Float]}
+			preview: []*jv{jObjOf("a", n("1"), "b", s("x"), "c", &jv{k: jTrue}, "l", jArrOf(n("1"), n("2")))},
+			late:    jObjOf("a", n("2"), "b", s("y"), "c", &jv{k: jFalse}, "l", jArrOf(n("3"), n("4"), n("5"))),
+			paths:   [][]int{{0}, {1}, {2}, {3}, {3, 0}, {3, 1}, {3, 2}},
+			bad:     []*jv{null, jObjOf("z", n("1")), jArrOf(s("q"))},
+			good:    nil,
+		},
+		{ // [Float] | String   (a union column: the alternative is chosen per value)
+			preview: []*jv{jArrOf(n("1"), n("2")), s("text")},
+			late:    jArrOf(n("1"), n("2"), n("3")),
+			paths:   [][]int{{0}, {1}, {2}},
+			bad:     []*jv{s("x"), null, {k: jTrue}},
+			good:    []*jv{n("0")},
+		},
+		{ // {k: Float} | String | Null
+			preview: []*jv{jObjOf("k", n("1"), "m", s("a")), s("text"), null},
+			late:    jObjOf("k", n("2"), "m", s("b")),
+			paths:   [][]int{{0}, {1}},
+			bad:     []*jv{jArrOf(n("1")), {k: jTrue}, null},
+			good:    nil,
+		},
+	}
+}
+
+// genPositional writes the positional files; every = 1 writes all of them, a larger value every n-th bad case
+func genPositional(g *Gen, every int, emit func(op string)) {
+	count := 0
+	file := func(sh posShape, late *jv, extraBefore int) {
+		var rows []*jv
+		for r := 0; r < 100; r++ {
+			rows = append(rows, jObjOf("c", sh.preview[r%len(sh.preview)]))
+		}
+		// conforming rows beyond the preview before (and after) the interesting one
+		for r := 0; r < extraBefore; r++ {
+			rows = append(rows, jObjOf("c", sh.late))
+		}
+		rows = append(rows, jObjOf("c", late))
+		if extraBefore > 0 {
+			rows = append(rows, jObjOf("c", sh.late))
+		}
+		emit(jsonOp(g.U64()>>1, rows))
+	}
+	for _, sh := range positionalShapes() {
+		file(sh, sh.late, 0) // the conforming direction
+		for _, p := range sh.paths {
+			for _, good := range sh.good {
+				file(sh, jReplace(sh.late, p, good), g.Intn(2))
+			}
+			for _, bad := range sh.bad {
+				count++
+				if count%every != 0 {
+					continue
+				}
+				file(sh, jReplace(sh.late, p, bad), g.Intn(3))
+			}
+		}
+	}
+}
